@@ -5,6 +5,7 @@ from __future__ import annotations
 from typing import TYPE_CHECKING
 from typing import Iterable
 
+from liquid2.utils.getitem import getitem
 from liquid2.builtin import LambdaExpression
 from liquid2.builtin import Path
 from liquid2.builtin import PositionalArgument
@@ -94,7 +95,7 @@ class UniqFilter:
             result = []
             for obj in left:
                 try:
-                    item = obj[key]
+                    item = getitem(obj, key)
                 except KeyError:
                     item = MISSING
                 except TypeError as err:
